@@ -146,7 +146,7 @@ def check_crystal(part, spec):
                     P = np.array([info[k][0] for k in obs])
                     dev = np.abs(P - got["cart_pos"]).max()
                     part.dev("position_A", dev)
-                    if dev > 1e-8 * max(1.0, np.abs(P).max()) or not np.array_equal(got["element"], ucel[[k[0] for k in obs]]) \
+                    if not (dev <= 1e-8 * max(1.0, np.abs(P).max())) or not np.array_equal(got["element"], ucel[[k[0] for k in obs]]) \
                             or not np.array_equal(got["asym_atom"], np.asarray(uc["asym_atom"])[[k[0] for k in obs]]):
                         part.fail(key + ":attributes", "atoms_in_radius: reported position/element/parent index do not belong to the matched image [%s]" % label, case)
                 part.outcome(("point", len(obs)))
@@ -167,7 +167,7 @@ def check_crystal(part, spec):
                     part.fail(key + ":count", "atomic_surroundings returns %d entries for %d sites" % (len(got), len(apos)), case)
                 for i, g in enumerate(got):
                     cen = apos[i]
-                    if np.abs(np.asarray(g["centre"]["cart_pos"]) - cen).max() > 1e-9 or g["centre"]["asym_atom"] != i:
+                    if not (np.abs(np.asarray(g["centre"]["cart_pos"]) - cen).max() <= 1e-9) or g["centre"]["asym_atom"] != i:
                         part.fail(key + ":centre", "centre record %d does not describe asymmetric-unit atom %d" % (i, i), case)
                     req, allowed, info = ref_ball(M, ucf, [cen], radius)
                     selfk = {k for k in allowed if info[k][1] < 1e-3}
@@ -176,7 +176,7 @@ def check_crystal(part, spec):
                     ok = compare_sets(part, obs, req, allowed, selfk, key, "atomic_surroundings(r=%g) site %d in %s" % (radius, i, label), dict(case, site=i))
                     if ok and len(obs):
                         dref = np.array([info[k][1] for k in obs])
-                        if np.abs(dref - nb["distance"]).max() > 1e-7 or not np.array_equal(nb["element"], ucel[[k[0] for k in obs]]) \
+                        if not (np.abs(dref - nb["distance"]).max() <= 1e-7) or not np.array_equal(nb["element"], ucel[[k[0] for k in obs]]) \
                                 or not np.array_equal(nb["asym_atom"], np.asarray(uc["asym_atom"])[[k[0] for k in obs]]):
                             part.fail(key + ":attributes", "atomic_surroundings: distance/element/parent index do not belong to the matched image [%s]" % label, dict(case, site=i))
                     part.outcome(("atomic", len(obs)))
@@ -215,9 +215,9 @@ def check_crystal(part, spec):
                         base_m = umols[0]
                         want_pos = np.asarray(base_m.positions) @ Rc.T + tc
                         m = base_m.transformed(rotation=Rc, translation=tc)
-                        if np.abs(np.asarray(m.positions) - want_pos).max() > 1e-8:
+                        if not (np.abs(np.asarray(m.positions) - want_pos).max() <= 1e-8):
                             m = base_m.transformed(rotation=Rc.T, translation=tc)
-                        if np.abs(np.asarray(m.positions) - want_pos).max() > 1e-8:
+                        if not (np.abs(np.asarray(m.positions) - want_pos).max() <= 1e-8):
                             part.skip("Molecule.transformed convention not recognised")
                             continue
                         if mode.endswith("rebuilt"):
@@ -239,7 +239,7 @@ def check_crystal(part, spec):
                         (ce, cp), (oe, op) = c.atom_group_surroundings(sel, radius=radius)
                         res = [(None, oe, op)]
                         centres = [np.asarray(m0.positions)[sel]]
-                        if np.abs(np.asarray(cp) - centres[0]).max() > 1e-9:
+                        if not (np.abs(np.asarray(cp) - centres[0]).max() <= 1e-9):
                             part.fail(key + ":centre", "atom_group_surroundings returns other central atoms than requested", case)
                 except Exception as e:
                     part.fail(key + ":raise", "%s(r=%g) raised %r [%s]" % (mode, radius, e, label), case)
